@@ -45,6 +45,8 @@ type Report struct {
 	Extra   map[string]interface{}
 	start   time.Time
 	Analysed map[string]bool // functions analysed
+	failing  map[string]bool
+	PreFinish func()
 }
 
 func NewReport(prop, tier string) *Report {
@@ -135,7 +137,14 @@ func loadKnown(path string) (*KnownFile, error) {
 
 // Finish applies floors, matches known findings, prints the verdict lines,
 // writes evidence and returns the exit status.
+// FailingKeys lists rule|key of the undischarged obligations that are not known findings
+// (valid after Finish).
+func (r *Report) FailingKeys() map[string]bool {
+	return r.failing
+}
+
 func (r *Report) Finish(verifDir string, seed int) int {
+	r.failing = map[string]bool{}
 	for _, o := range r.Obs {
 		ri := r.ruleIdx[o.Rule]
 		ri.Count++
@@ -195,6 +204,10 @@ func (r *Report) Finish(verifDir string, seed int) int {
 			continue
 		}
 		nviol++
+		r.failing[o.Rule+"|"+o.Key] = true
+		if os.Getenv("NFSVERIF_NESTED") != "" {
+			fmt.Printf("FAILKEY %s|%s\n", o.Rule, o.Key)
+		}
 		os.MkdirAll(viold, 0o755)
 		rp := filepath.Join(viold, fmt.Sprintf("%d.json", nviol))
 		b, _ := json.MarshalIndent(o, "", " ")
@@ -268,4 +281,27 @@ func (r *Report) Finish(verifDir string, seed int) int {
 		return 1
 	}
 	return 0
+}
+
+// rewriteEvidence merges Extra keys added after Finish into the evidence file.
+func (r *Report) rewriteEvidence(verifDir string) {
+	p := filepath.Join(verifDir, "evidence", r.Prop+".json")
+	b, err := os.ReadFile(p)
+	if err != nil {
+		return
+	}
+	var ev map[string]interface{}
+	if json.Unmarshal(b, &ev) != nil {
+		return
+	}
+	cov, _ := ev["coverage"].(map[string]interface{})
+	if cov == nil {
+		return
+	}
+	for k, v := range r.Extra {
+		cov[k] = v
+	}
+	ev["wall_s"] = time.Since(r.start).Seconds()
+	nb, _ := json.MarshalIndent(ev, "", " ")
+	os.WriteFile(p, nb, 0o644)
 }
